@@ -4,6 +4,7 @@ pub mod e1checks;
 pub mod unit_a;
 pub mod unit_b;
 pub mod unit_c;
+pub mod unit_d;
 
 use crate::runner::{Check, Tier};
 
@@ -19,6 +20,7 @@ pub fn registry() -> Vec<Entry> {
     v.extend(unit_a::entries());
     v.extend(unit_b::entries());
     v.extend(unit_c::entries());
+    v.extend(unit_d::entries());
     v
 }
 
